@@ -5,22 +5,27 @@
 
 package auth
 
+// A session object is never changed once it is in the store: requests and the garbage
+// collector read it without a lock.
+//@ field Session.ExpiresAt guarded_by immutable
+//@ field Session.UserID guarded_by immutable
+
 // A session (identified by the content identity k of its id string) is live at
 // time t while it is in the store and its expiry lies after t.
 //@ spec func specLiveId(k int, t int) bool = in(sessionStore.ma, k) && sessionStore.ma[k] != nil && sessionStore.ma[k].ExpiresAt > t
 //@ spec func specStoreWF() bool = forall k key :: in(sessionStore.ma, k) ==> sessionStore.ma[k] != nil
 
-//@ props C20 C16
+//@ props C20 C16 C15
 //@ func GetSession
 //@   nopanic
 //@   requires specStoreWF()
 //@   ensures specStoreWF()
 //@   ensures result1 <==> result0 != nil
 //@   ensures [C20] result1 ==> old(specLiveId(sid(sid), now))
-//@   ensures [C20] result1 ==> result0 == old(sessionStore.ma[sid]) && result0.ExpiresAt > now
+//@   ensures [C20] result1 ==> result0.UserID == old(sessionStore.ma[sid].UserID) && sid(result0.ID) == old(sid(sessionStore.ma[sid].ID)) && result0.ExpiresAt > now
 //@   ensures [C20] result1 ==> in(sessionStore.ma, sid) && sessionStore.ma[sid] == result0
 
-//@ props C20 C16
+//@ props C20 C16 C15
 //@ func CreateSession
 //@   nopanic
 //@   requires specStoreWF()
@@ -36,7 +41,7 @@ package auth
 //@   ensures [C20] !in(sessionStore.ma, s.ID)
 
 // The session handed to a request is the live session named by its cookie.
-//@ props C20 C16
+//@ props C20 C16 C15
 //@ func SessionFromRequest
 //@   nopanic
 //@   requires r != nil && specStoreWF()
